@@ -168,22 +168,41 @@ KktPoint(r, wt, C, eps, tol, q) ==
     /\ (wt > q /\ wt < C - q)   => r <= eps + tol + q
     /\ (wt < -q /\ wt > -C + q) => r >= -eps - tol - q
 
-(* all training points, with the assignment searched inside each group of identical rows;
+(* All training points.  Rows with identical features form a group; the stored vectors
+   with these features carry the group's non-zero coefficients, the remaining rows of the
+   group have coefficient 0.  The clause holds iff SOME one-to-one assignment of the
+   group's coefficients (padded with zeros) to its rows satisfies KktPoint everywhere.
+
+   The admissible residual interval [lo(wt), hi(wt)] of KktPoint has both end points
+   non-decreasing in wt.  For such a monotone interval family a valid assignment exists
+   iff the order-preserving one is valid (exchange argument: if r1 <= r2 are assigned
+   wt1 >= wt2, then lo(wt2) <= lo(wt1) <= r1 <= r2 <= hi(wt2) <= hi(wt1), so swapping keeps
+   both inside).  Hence: sort the residuals, sort the padded coefficients, compare
+   position by position -- exact, and linear instead of factorial in the group size.
    res[i] = y[i] - f(X[i]) *)
-KktGroup(rows, insts, res, w, C, eps, tol, q) ==
-    \E sigma \in [insts -> rows] :
-        /\ \A a, c \in insts : a # c => sigma[a] # sigma[c]
-        /\ \A i \in rows :
-              KktPoint(res[i],
-                       IF \E a \in insts : sigma[a] = i
-                       THEN w[CHOOSE a \in insts : sigma[a] = i] ELSE 0,
-                       C, eps, tol, q)
+InsertSorted(s, v) ==
+    LET k == Cardinality({i \in 1..Len(s) : s[i] <= v}) IN
+    SubSeq(s, 1, k) \o <<v>> \o SubSeq(s, k + 1, Len(s))
+
+RECURSIVE SortSeq(_)
+SortSeq(s) == IF Len(s) = 0 THEN <<>> ELSE InsertSorted(SortSeq(Tail(s)), Head(s))
+
+KktSorted(rs, ws, C, eps, tol, q) ==      \* rs, ws sorted ascending, equal length
+    \A j \in 1..Len(rs) : KktPoint(rs[j], ws[j], C, eps, tol, q)
+
+KktGroup(ridx, widx, res, w, C, eps, tol, q) ==   \* index sequences of the group's rows / stored vectors
+    /\ Len(widx) <= Len(ridx)
+    /\ KktSorted(SortSeq([j \in 1..Len(ridx) |-> res[ridx[j]]]),
+                 SortSeq([j \in 1..Len(ridx) |-> IF j <= Len(widx) THEN w[widx[j]] ELSE 0]),
+                 C, eps, tol, q)
 
 SvrKktOK(X, sv, w, res, C, eps, tol, q) ==
     \A i \in 1..Len(X) :
-        LET rows == {i2 \in 1..Len(X) : X[i2] = X[i]} IN
-        (i = CHOOSE m \in rows : \A m2 \in rows : m <= m2) =>
-            KktGroup(rows, {k \in 1..Len(sv) : sv[k] = X[i]}, res, w, C, eps, tol, q)
+        \* evaluate each group once, at its first row
+        (\A i2 \in 1..(i - 1) : X[i2] # X[i]) =>
+            KktGroup(SelectSeq([i2 \in 1..Len(X) |-> i2], LAMBDA i2 : X[i2] = X[i]),
+                     SelectSeq([k \in 1..Len(sv) |-> k], LAMBDA k : sv[k] = X[i]),
+                     res, w, C, eps, tol, q)
 
 (* ---------------------------------------------------------------------- *)
 (* classification of a fit for coverage accounting (not part of the property) *)
